@@ -140,11 +140,29 @@ def key_pp(a, b):
 
 
 def key_ps(p, s1, s2):
-    return f"ps[{p}|{s1}>{s2}]"
+    """key of point p against the segment {s1, s2}.  The two orientations of a segment share the distance and the projection
+    point (in dist_euclidean: same point, t' = 1 - t, for segments longer than the 1e-8 tolerance), so the key is canonical in
+    the end points; use flipped()/t_of() for the relative position."""
+    a, b = sorted([s1, s2])
+    return f"ps[{p}|{a}>{b}]"
 
 
 def key_ss(f1, f2, t1, t2):
-    return f"ss[{f1}>{f2}|{t1}>{t2}]"
+    """key of segment {f1, f2} against segment t1>t2 (the second one is an observation segment and keeps its orientation)."""
+    a, b = sorted([f1, f2])
+    return f"ss[{a}>{b}|{t1}>{t2}]"
+
+
+def flipped(s1, s2):
+    return s1 > s2
+
+
+def t_of(mp, key, s1, s2):
+    """relative position symbol (Sym) for the orientation s1>s2 of the canonical key."""
+    t = mp.t(key)
+    if flipped(s1, s2):
+        return 1 - t
+    return t
 
 
 def make_absmap_class():
@@ -195,11 +213,11 @@ def make_absmap_class():
 
         def _dps(self, p, s1, s2, delta=0.0):
             k = key_ps(pname(p), pname(s1), pname(s2))
-            return self.sq(k), P("proj:" + k), self.t(k)
+            return self.sq(k), P("proj:" + k), t_of(self, k, pname(s1), pname(s2))
 
         def _dss(self, f1, f2, t1, t2):
             k = key_ss(pname(f1), pname(f2), pname(t1), pname(t2))
-            return self.sq(k), P("pf:" + k), P("pt:" + k), self.t("f:" + k), self.t("t:" + k)
+            return self.sq(k), P("pf:" + k), P("pt:" + k), t_of(self, "f:" + k, pname(f1), pname(f2)), self.t("t:" + k)
 
     return AbsMap
 
@@ -245,11 +263,12 @@ def make_tablemap_class():
 
         def _dps(self, p, s1, s2, delta=0.0):
             k = key_ps(pname(p), pname(s1), pname(s2))
-            return self._d(k), P("proj:" + k), self._t(k)
+            return self._d(k), P("proj:" + k), (1.0 - self._t(k)) if flipped(pname(s1), pname(s2)) else self._t(k)
 
         def _dss(self, f1, f2, t1, t2):
             k = key_ss(pname(f1), pname(f2), pname(t1), pname(t2))
-            return self._d(k), P("pf:" + k), P("pt:" + k), self._t("f:" + k), self._t("t:" + k)
+            tf = self._t("f:" + k)
+            return self._d(k), P("pf:" + k), P("pt:" + k), (1.0 - tf) if flipped(pname(f1), pname(f2)) else tf, self._t("t:" + k)
 
     return TableMap
 
